@@ -26,7 +26,9 @@ RULE = ('six case streams from one PRNG: (ddl) random class declarations, 1..6 c
         'three styles x longID, unique and multi-column indexes (mysql prefix lengths), RelatedJoin/MultipleJoin towards a second class, '
         'server capability flags; rendered for all seven dialects and executed + introspected on sqlite incl. insert/read-back and '
         'create-if-missing / drop-if-present twice; (join) pairs of classes with mirrored / one-sided / switched-off joins created in both '
-        'orders; (evo) addColumn/delColumn(changeSchema=True) sequences on a populated sqlite table with an index and a referencing child; '
+        'orders; (evo) addColumn/delColumn(changeSchema=True) sequences on a populated sqlite table with an index and a referencing child, '
+        'interleaved with steps the class must refuse (addColumn under the name of a method, a live column, a declared index, id; '
+        'delColumn of an unknown name; changeSchema True and False), class vs PRAGMA table_info judged after every step; '
         '(idem) random createTable/dropTable sequences with and without the if-flags and out-of-band DROP TABLE; '
         '(decoy) a foreign table, created out of band, whose name the wanted table or link table name matches when _ is read as a wildcard '
         '(or that differs in letter case), then create-if-missing twice, insert/read back, drop-if-present twice; (style) mixedToUnder/underToMixed on an exhaustive '
@@ -561,6 +563,32 @@ def gen_join_case(rng):
     return {'k': 'join', 'a': da, 'b': db, 'order': rng.choice(['ab', 'ba'])}
 
 
+# attributes every SQLObject class has; Model/Ddl.v so_attrs is the same list
+SO_ATTRS = ['expire', 'sync', 'set', 'destroySelf', 'select', 'get', 'q', 'j', 'sqlmeta', 'delete', 'selectBy',
+            'syncUpdate', 'sqlrepr', 'tableExists', 'createTable', '_connection']
+
+
+def gen_refused_op(rng, decl, live):
+    """a step the class must refuse before anything changes: addColumn under a name that collides with
+    `id`, a live column, a method / attribute, a declared index; delColumn of an unknown name --
+    with changeSchema True or False"""
+    cs = rng.random() < 0.65
+    if rng.random() < 0.7:
+        pool = list(SO_ATTRS) + list(SO_ATTRS[:6]) + live + live + ['id'] + [ix['name'] for ix in decl['indexes']] * 2
+        name = rng.choice(pool)
+        # a plain nullable column the engine would accept
+        c = intcol(name, default=rng.random() < 0.5, defaultSQL=rng.choice([None, None, '5']),
+                   dbName=rng.choice([None, None, 'clash_col']))
+        if rng.random() < 0.2:
+            c['kind'] = rng.choice([['string', 10, 'auto'], ['bool'], ['float']])
+            c['defaultSQL'] = None
+        return ['add', c, cs]
+    name = rng.choice(['zzz', 'nope9', 'expire', 'id', 'a_'] + [ix['name'] for ix in decl['indexes']])
+    if name in live:
+        name = 'zzz'
+    return ['del', name, cs]
+
+
 def gen_evo_case(rng):
     style = rng.choice([['default', False], ['default', False], ['mixed', False], ['plain', True]])
     parent = simple_decl('VcEvoPar', [intcol('p')])
@@ -585,11 +613,13 @@ def gen_evo_case(rng):
                                 'unique': rng.random() < 0.3 and ic['kind'][0] != 'fk'})
     ops = []
     live = [spec_final_name(c) for c in cols]
-    for _ in range(rng.randint(1, 4)):
-        if live and rng.random() < 0.45:
+    for _ in range(rng.randint(1, 5)):
+        if rng.random() < 0.3:
+            ops.append(gen_refused_op(rng, decl, live))
+        elif live and rng.random() < 0.45:
             n = rng.choice(live)
             live.remove(n)
-            ops.append(['del', n])
+            ops.append(['del', n, True])
         else:
             c = gen_col(rng, [parent], used_py, used_db, style)
             if c is None:
@@ -605,8 +635,9 @@ def gen_evo_case(rng):
                 c['defaultSQL'] = rng.choice([None, None, 'NULL'])
             elif c['defaultSQL'] not in (None, '5', '0', '-1', 'NULL'):
                 c['defaultSQL'] = '5'
-            ops.append(['add', c])
-            live.append(spec_final_name(c))
+            ops.append(['add', c, True])
+            if not (spec_unique(c) or (spec_notnull(c) and c['defaultSQL'] in (None, 'NULL'))):
+                live.append(spec_final_name(c))     # (only a column the engine surely accepts counts as live)
     return {'k': 'evo', 'decl': decl, 'others': [parent], 'ops': ops, 'rows': rng.randint(0, 3),
             'child': rng.random() < 0.5}
 
@@ -731,6 +762,12 @@ def corpus():
                                                             col('e', ['enum', ["it's", 'x,y', None]], default=True)],
                                                 indexes=[{'name': 'ix', 'cols': [['name', None], ['n', 10]], 'unique': True}]),
                 'others': [], 'caps': base_caps, 'exec': True})
+    # the seeded scenario c14_addcolumn_alters_before_collision_check: addColumn('expire', changeSchema=True)
+    out.append({'k': 'evo', 'decl': simple_decl('VcEvo', [intcol('a')], indexes=[{'name': 'ix', 'cols': [['a', None]], 'unique': False}]),
+                'others': [simple_decl('VcEvoPar', [intcol('p')])],
+                'ops': [['add', intcol('expire'), True], ['add', intcol('ix'), True], ['add', intcol('a'), False],
+                        ['del', 'zzz', True], ['add', intcol('fine'), True], ['del', 'nope9', False]],
+                'rows': 2, 'child': False})
     # the seeded scenario c14_sqlite_tableexists_like: a legacy table order2item, the class maps to order_item
     out.append({'k': 'decoy', 'a': simple_decl('OrderItem', [intcol('qty'), intcol('sku', notNone=True)]),
                 'b': simple_decl('VcZz', [intcol('y')]), 'decoy': 'order2item', 'kind': 'wild', 'target': 'table'})
@@ -1134,12 +1171,13 @@ def run_evo(case):
         for op in case['ops']:
             st = {}
             try:
+                cs = op[2] if len(op) > 2 else True
                 if op[0] == 'add':
                     cd = _mkcol(op[1])
                     cd.name = op[1]['name']
-                    cls.sqlmeta.addColumn(cd, changeSchema=True)
+                    cls.sqlmeta.addColumn(cd, changeSchema=cs)
                 else:
-                    cls.sqlmeta.delColumn(op[1], changeSchema=True)
+                    cls.sqlmeta.delColumn(op[1], changeSchema=cs)
                 st['error'] = None
             except Exception as e:
                 st['error'] = type(e).__name__
@@ -1516,9 +1554,10 @@ def coq_case(c, o):
                         cbool(s['select_ok'])))
 
         def cop(op):
+            cs = op[2] if len(op) > 2 else True
             if op[0] == 'add':
-                return '(EAdd %s)' % ccol(op[1], ctx)
-            return '(EDel %s)' % cstr(op[1])
+                return '(%s %s)' % ('EAdd' if cs else 'EAddNoSchema', ccol(op[1], ctx))
+            return '(%s %s)' % ('EDel' if cs else 'EDelNoSchema', cstr(op[1]))
         return '(CEvo %s %s %s %s %s)' % (cdecl(c['decl'], ctx), clist(keep, cstr), clist(rows0, lambda r: clist(r, cz)),
                                           clist(c['ops'], cop), clist(o['steps'], cstep))
     raise ValueError(k)
